@@ -90,6 +90,8 @@ def run_s(out, slices, props, max_paths=None, time_budget=None, procs=16):
         for cse, (st, inf) in zip(val_cases, statuses[len(uniq):]):
             if st == 'reproduced':
                 n_validated += 1
+            elif st == 'unparsable':
+                c['validation_cases_rustc_would_not_parse'] = c.get('validation_cases_rustc_would_not_parse', 0) + 1
             else:
                 bad += 1
                 if bad <= 3:
